@@ -141,7 +141,7 @@ CHECKS["C19"] = dict(
         "Parseval/Plancherel, impulse -> constant; bit reversal is the involutive permutation; ArrayFilter1DUsingConvolution(+SymmetricKernel) loops are the convolutions they claim for arbitrary kernel/input/output "
         "index ranges and boundary conditions and never read out of range; the padded-DFT route equals direct convolution when no wrap-around can occur (precise condition; witness that 'twice the length' alone is not enough); "
         "separable filters commute in all axis orders; unit-sum kernels preserve the mean on constant support. 2-D/3-D convolution is partial (is_trivial defect) and a length-2 last dimension is rejected by the real inverse: "
-        "negative witnesses = listed known findings. The convolution theorem for the real-data packing is stated, not proved (correspondence only). "
+        "negative witnesses = listed known findings. The 1-D convolution theorem (inverse DFT of the product of two DFTs = L x circular convolution, any length, any primitive root, any integral domain) is proved for the DFT by its definition; the real-data packing trick and the n-dimensional recursion remain correspondence-only. "
         "Tie: real fourier/inverse_fourier (complex and real data, 1-3 D), ArrayFilter*UsingConvolution, ArrayFilterUsingRealDFTWithPadding, SeparableArrayFunctionObject on generated arrays against the model (exact Rat where no "
         "transcendental enters, Float with a derived bound otherwise); inversion/Parseval/impulse oracles on the implementation.",
    note=TB + "sin/cos tables are roots of unity in the theorems and Float in the driver; float rounding by derived bound; Metz/Gaussian kernel values not modelled.",
